@@ -79,16 +79,29 @@ def battery(only=None, jobs=16):
         if only and target != only:
             continue
         tasks.append(("seeded", sid, pf, [target]))
+    for pf in sorted(glob.glob(os.path.join(HERE, "hand", "*.diff"))):
+        meta = json.load(open(pf[:-5] + ".json"))
+        if only and meta["property"] != only:
+            continue
+        tasks.append(("hand", "hand:" + meta["name"], pf, [meta["property"]], meta["rule"]))
     for pf in sorted(glob.glob(os.path.join(HERE, "twins", "*.diff"))):
         name = os.path.basename(pf)[:-5]
         tasks.append(("twin", name, pf, [only] if only else all_props))
     res = {"seeded": {}, "twins": {}, "failed": [], "inapplicable": []}
     with ThreadPoolExecutor(max_workers=jobs) as ex:
         futs = [(t, ex.submit(run_one, t[2], t[3])) for t in tasks]
-        for (kind, name, pf, props), fu in futs:
+        for t, fu in futs:
+            kind, name, pf, props = t[:4]
             r = fu.result()
             if r.get("inapplicable"):
                 res["inapplicable"].append(name)
+                continue
+            if kind == "hand":
+                target = props[0]
+                hit = r[target]["rc"] == 1 and any(x.split(" ")[0] == t[4] for x in r[target]["rules"])
+                res.setdefault("hand", {})[name] = {"detected": hit, "rc": r[target]["rc"], "rules": r[target]["rules"], "rule": t[4]}
+                if not hit:
+                    res["failed"].append(f"{name}: rule {t[4]} did not report it (rc={r[target]['rc']}, {r[target]['rules']})")
                 continue
             if kind == "seeded":
                 target = props[0]
@@ -105,7 +118,8 @@ def battery(only=None, jobs=16):
                 if noisy:
                     res["failed"].append(f"twin {name}: {noisy}")
     res["counts"] = {"seeded": len(res["seeded"]), "seeded_detected": sum(v["detected"] for v in res["seeded"].values()),
-                     "twins": len(res["twins"]), "twins_silent": sum(v["silent"] for v in res["twins"].values())}
+                     "twins": len(res["twins"]), "twins_silent": sum(v["silent"] for v in res["twins"].values()),
+                     "hand": len(res.get("hand", {})), "hand_detected": sum(v["detected"] for v in res.get("hand", {}).values())}
     return res
 
 
